@@ -108,7 +108,7 @@ BUILDERS = [
     ('tls-in-tcp', 54 + 5, lambda e, raw: ('let f = ipv4::tcp::flow(1.2.3.4:5, 6.7.8.9:443);', 'f.client_message(send_ack: false, tls::message(%s));' % e)),
     ('len-prefixed', 14 + 2, lambda e, raw: ('', 'eth::frame("|000000000001|", "|000000000002|", std::len_be16(%s));' % e)),
 ]
-HEAD = 'import ipv4;\nimport eth;\nimport text;\nimport std;\nimport tls;\nimport vxlan;\nimport gre;\nimport io;\nimport dns;\nimport dhcp;\nimport netbios;\nimport erspan1;\nimport erspan2;\nimport time;\n'
+HEAD = 'import ipv4;\nimport eth;\nimport text;\nimport std;\nimport tls;\nimport vxlan;\nimport gre;\nimport io;\nimport dns;\nimport dhcp;\nimport netbios;\nimport erspan1;\nimport erspan2;\nimport time;\nimport arp;\n'
 
 
 def one(c, r, name, hdr, mk, b, i, typed=None):
